@@ -107,6 +107,24 @@ def _spellings(ctx):
 
 def comparison_cases(ctx: Ctx, h: Harness):
     fi = ctx.prog.func(f"{CMP}::Comparison.evaluate")
+    # value and raw value of DIFFERENT kinds (an enumerated item: label 'ON', raw 1; a calibrated integer: 20.5, raw 3): the
+    # literal is interpreted in the type of the value that was SELECTED
+    site = f"{fi.key}::value and raw value of different kinds"
+    try:
+        bad = None
+        for kind, v, raw, lit, usecal, sp, want in (("Str", "ON", 1, "1", False, "==", True), ("Str", "ON", 1, "1", False, "!=", False),
+                                                    ("Str", "ON", 1, "2", False, "<", True), ("Str", "ON", 1, "ON", True, "==", True),
+                                                    ("Str", "ON", 1, "0", False, ">", True), ("Float", 20.5, 3, "3", False, "==", True),
+                                                    ("Float", 20.5, 3, "10", True, ">", True), ("Float", 20.5, 3, "10", False, ">", False)):
+            pkt = h.packet(b"", {"P": h.val(kind, v, raw)})
+            k, got = h.outcome("Comparison(lit, 'P', operator=sp, use_calibrated_value=uc).evaluate(pkt)", CMP, lit=lit, sp=sp, uc=usecal, pkt=pkt)
+            if k != "ok" or not _truth(got) or got != want:
+                bad = (f"P = {v!r} with raw value {raw!r}: Comparison(P {sp} {lit!r}, use_calibrated_value={usecal}) gives {got!r}"
+                       f"{' (raised)' if k != 'ok' else ''}; the relation on the {'calibrated' if usecal else 'raw'} value is {want}")
+                break
+        ctx.decide(bad is None, "R6.cmp", site, "", bad or "", where=where(fi, fi.node))
+    except Unsupported as e:
+        ctx.unknown("R6.cmp", site, str(e))
     for kind, (vals, lits, conv) in KINDS.items():
         for sp, dun in _spellings(ctx):
             site = f"{fi.key}::{kind}::{sp}"
